@@ -135,6 +135,16 @@ def up(ctx):
                 ob.unknown("%s: lane selection (1 << lane) sites not found" % tag)
                 continue
             for l, t in lanes:
+                gk_ = set(v.guard_keys(l))
+                for a_, p_ in v.guard_lits(l, False):
+                    if p_:     # a guard signal that this very state defines unconditionally (e.g. ready = valid & ~lock)
+                        for d_ in v.fsm_leaves(f, l.state):
+                            if d_.kind == "assign" and not d_.guards and key(d_.target) == key(a_) and isinstance(d_.value, V):
+                                gk_ |= litset(conj(d_.value))
+                if "port_from.cmd.valid" not in gk_:
+                    ob.refute("up-lane-without-valid:%s:%s" % (tag, l.state), "state %s: a chunk is added to the selection from port_from.cmd.addr under %s, i.e. also while no "
+                              "command is offered: whatever address the master shows while idle is merged into the native access (an extra data beat is pulled / returned)" %
+                              (l.state, sorted(v.guard_keys(l, False))), l.loc)
                 if key(t) != "port_from.cmd.addr[:%d]" % k:
                     ob.refute("up-lane:%s" % tag, "lane is selected by %s, expected the low %d address bits port_from.cmd.addr[:%d]" % (key(t), k, k), l.loc)
             wa = [l for l in v.fsm_leaves(f) if l.kind == "assign" and key(l.target) == "port_to.cmd.addr"]
@@ -271,3 +281,7 @@ def run(ctx):
     addr_width(ctx)
     lane_order(ctx)
     ctx.assume("stream.StrideConverter / stream.SyncFIFO contracts (LiteX); data values, FIFO occupancy interleavings and the read_lock race are not decided")
+    ob5 = ctx.ob("C07.5", "a converted port handed out for another clock domain has its width converter clocked by that domain (ClockDomainsRenamer around the "
+                          "converter, crossing on the controller side) - otherwise handshakes are counted differently on the two sides of the converter "
+                          "(shared with C08.3)", 3)
+    share(ctx, ob5, "C08", ("C08.3",))
